@@ -38,6 +38,24 @@ CLAIMED['C04'] = dict(
     note='library model read from AccessControl/tainted.py and a frozen '
          'str-method table; html.escape/urllib quote sanitise; known '
          'findings in known_findings.json')
+CLAIMED['C06'] = dict(
+    technique='regex NFA self-product (exponential-ambiguity criterion); '
+              'raise/handler discipline and dominance queries over the '
+              'compile-phase call graph; origin pairing; SCCs',
+    text='Partial (structural necessary conditions): no regex of the '
+         'compile phase is exponentially ambiguous; compile-phase code '
+         'raises only ParseError(message, tag) and wraps the expression '
+         'shorthand; no single-character index on the source text; '
+         'parameter-dict subscripts are dominated by membership tests; '
+         'caught exceptions are not destructured; every located error '
+         'pairs a tag with that tag\'s own offset; call-graph cycles '
+         '(input-proportional recursion) are enumerated; the tag registry '
+         'resolves. Not decided: rejected iff the grammar is violated; '
+         'progress arithmetic of the scanner loops.',
+    ref='4 C06, 3.5, 3.6',
+    note='compile phase = reachable from String.cook and the registry '
+         'constructors in the resolved call graph; Python re is a '
+         'backtracking matcher')
 PENDING = {}
 NA = {
     'C16': 'numerical identities over run-time data (sums, means, n vs n-1, '
